@@ -296,7 +296,9 @@ def check_plan(ctx):
         ap = apps[0]
         bl = enclosing_for(ap, f.node)
         entry = norm.subst(ap.args[0], _loop_single_defs(bl)) if bl is not None else ap.args[0]
-        okp = bl is not None and enclosing_for(bl, f.node) is ol and norm.is_name(bl.iter, segsv) and isinstance(bl.target, ast.Name) \
+        same_list = bl is not None and (norm.is_name(bl.iter, segsv) or (segs_def is not None and opv is not None and norm.U(inline_simple_calls(P, bl.iter)) in
+                                                                       (f"{opv}.values", f"{opv}.get_segments()")))      # the list itself, or read again from the operator
+        okp = bl is not None and enclosing_for(bl, f.node) is ol and same_list and isinstance(bl.target, ast.Name) \
             and isinstance(entry, ast.Tuple) and len(entry.elts) == 2
         if okp:
             hid = g.node_of(bl).id
